@@ -27,5 +27,7 @@ func init() {
 			doc: "incomplete-input decision (lexer half): a parse error without a message of its own is reported as 'unexpected EOF while parsing' exactly when the input ran out (x.eof), otherwise as 'invalid syntax' — the REPL continues a statement on the former"},
 		{key: "py|Type.Lookup", prop: "C16", rule: "C16.R4", show: []string{"*"},
 			doc: "MRO lookup: every call walks the current MRO of the type and returns the first dictionary hit; nothing is memoised across calls (a cache would need invalidation in every subclass)"},
+		{key: "py|Range.M__eq__", prop: "C13", rule: "C13.R6", show: []string{"*"},
+			doc: "range equality compares the sequences the ranges denote: different lengths differ; empty ranges are equal; then the first items must agree; a range of one item needs nothing more; otherwise the steps must agree [rangeobject.c range_equals]"},
 	}
 }
